@@ -33,7 +33,7 @@ def proj (s : St) : Fan.St :=
   { v := s.v, f := s.f, i := s.i, dpc := s.dpc, tc := s.tc, own := projOwn s.own, sig := s.sig, ws := s.ws.map projW }
 
 def projWAct : WAct → Option Fan.WAct
-  | .lockT | .time | .unlockT => none
+  | .lockT | .time | .unlockT | .lockTF => none
   | .connectBegin => some .connectBegin
   | .connectEnd _ => some .connectEnd
   | .destroyBegin => some .destroyBegin
